@@ -133,7 +133,10 @@ def check_pictures(chk, font, cfg, srcs, glyphs, tol, ctx, replay, raw=False, de
             chk.violation(f"{ctx}: codepoints {src.cps} shape to {reached}", replay)
             continue
         gid = font.getGlyphID(reached[0])
-        got, why = oracle_otsvg.glyph_layers(font, gid, cache)
+        try:
+            got, why = oracle_otsvg.glyph_layers(font, gid, cache)
+        except ValueError as e:   # the document cannot be rendered: dangling href / paint, unsupported element
+            got, why = None, f"document not renderable: {e}"
         if got is None:
             chk.violation(f"{ctx}: glyph {reached[0]} (id {gid}): {why}", replay)
             continue
@@ -256,6 +259,31 @@ def random_formats(chk, n):
         check_pictures(chk, font, cfg, srcs, glyphs, tol, f"random scenario {k} [{fmt}]", replay, raw=raw, deltas=deltas)
 
 
+def shared_gradient_documents(chk, n):
+    for k in range(n):
+        r = common.rng("C02", "sg", k)
+        glyphs = S.shared_gradient_docs_scenario(r)
+        fmt = r.choice(["picosvg", "picosvgz"])
+        cfgkw = dict(color_format=fmt, keep_glyph_names=True, clip_to_viewbox=False, reuse_tolerance=0.1)
+        cfg = build.base_config(**cfgkw)
+        srcs = CC.sources_from(glyphs)
+        if k % 2:
+            srcs = list(reversed(srcs))
+            glyphs = list(reversed(glyphs))
+        replay = {"kind": "otsvg-shared-gradients", "seed": [chk.seed, k], "config": {a: str(b) for a, b in cfgkw.items()},
+                  "svgs": [s.svg_text for s in srcs], "input_order": [s.filename for s in srcs]}
+        chk.case(key=("shared-gradient", k), nontrivial=True)
+        chk.traces_validated += 1
+        try:
+            _, font = build.build(cfg, srcs, already_pico=True)
+        except Exception as e:
+            chk.violation(f"valid sources fail to build ({fmt}): {type(e).__name__}: {str(e)[:200]}", replay)
+            continue
+        structural_checks(chk, font, f"shared-gradient scenario {k}", replay)
+        check_pictures(chk, font, cfg, srcs, glyphs, 0.1, f"shared-gradient scenario {k} [{fmt}]", replay,
+                       deltas=CC.layer_deltas(glyphs, cfg, 0.1))
+
+
 def run(chk):
     quick = chk.tier == "quick"
     chk.rule = (
@@ -276,6 +304,7 @@ def run(chk):
     chk.exhaustive = True
     replay_model(chk, res.records, 100 if quick else 3000)
     random_formats(chk, 50 if quick else 1500)
+    shared_gradient_documents(chk, 16 if quick else 400)
     chk.assumptions += ["OT-SVG/SVG 1.1 semantics as implemented by harness/oracle_otsvg.py (g, path, use, defs, basic "
                         "shapes, fill inheritance, opacity, gradients)", "picosvg reuses isometric copies (assumption of the model; "
                         "structure drift is reported, the picture decides)"]
